@@ -49,6 +49,7 @@ type SFor struct {
 	Label, Var string
 	N          int
 	Body       []Stmt
+	LetCopy    bool // the body starts with a closure-captured per-iteration let binding
 }
 type SWhile struct {
 	Label, Var string
@@ -69,6 +70,7 @@ type SForIn struct {
 type SBlock struct {
 	Label string
 	Body  []Stmt
+	Scope int // 0: plain block; 1: block with a closure-captured let binding (a scope object the exits must leave); 2: with ({}) { }
 }
 type SCase struct {
 	Val       int
@@ -328,6 +330,9 @@ func (p *ctlPrinter) stmts(ss []Stmt) {
 			p.line("}")
 		case *SFor:
 			p.line("%sfor (%s = 0; %s < %d; %s++) {", lbl(s.Label), s.Var, s.Var, s.N, s.Var)
+			if s.LetCopy {
+				p.line("  let z_%s = %s; (function() { return z_%s; });", s.Var, s.Var, s.Var)
+			}
 			p.block(s.Body)
 			p.line("}")
 		case *SWhile:
@@ -354,7 +359,15 @@ func (p *ctlPrinter) stmts(ss []Stmt) {
 			p.block(s.Body)
 			p.line("}")
 		case *SBlock:
-			p.line("%s{", lbl(s.Label))
+			switch s.Scope {
+			case 1:
+				p.line("%s{", lbl(s.Label))
+				p.line("  let z_%s = 1; (function() { return z_%s; });", s.Label, s.Label)
+			case 2:
+				p.line("%swith ({}) {", lbl(s.Label))
+			default:
+				p.line("%s{", lbl(s.Label))
+			}
 			p.block(s.Body)
 			p.line("}")
 		case *SSwitch:
